@@ -145,9 +145,17 @@ def run(ctx, anchors=None):
     fdecl = [d for n in main.nodes() if n["k"] == "decl" for d in n["decls"] if d["n"] == "flags"]
     ok_init = bool(fdecl) and fdecl[0].get("init") is not None and astq.estr(fdecl[0]["init"]) == A["standard"]
     ctx.inst(ok_init, "R09.2", "starts-from-standard", main.loc(), "`flags` in main starts as STANDARD_SCRIPT_VERIFY_FLAGS")
-    mods = [n for n in main.nodes() if n["k"] == "assign" and astq.estr(n["lhs"]) == "flags"]
-    okm = len(mods) == 1 and mods[0]["rhs"].get("k") == "call" and mods[0]["rhs"].get("n") == A["parser"] and astq.estr(mods[0]["rhs"]["args"][0]) == "flags"
-    ctx.inst(okm, "R09.2", "modified-only-by-parser", main.loc(mods[0]) if mods else main.loc(), "`flags` is modified only by svf_parse_flags(flags, <option>)")
+    # every write of `flags` in the driver: plain and compound assignments, ++/--, and handing its address / a non-const reference
+    mods = [n for n in main.nodes() if n["k"] in ("assign", "cassign") and astq.estr(n["lhs"]) == "flags"]
+    mods += [n for n in main.nodes() if n["k"] == "un" and n.get("op") in ("++", "--", "&") and astq.estr(n.get("e")) == "flags"]
+    for n in main.nodes():
+        if astq.is_call(n) and n.get("pk"):
+            for i_, a_ in enumerate(n.get("args", [])):
+                if a_ is not None and i_ < len(n["pk"]) and n["pk"][i_] == "r" and astq.estr(a_) == "flags":
+                    mods.append(n)
+    okm = len(mods) == 1 and mods[0]["k"] == "assign" and mods[0]["rhs"].get("k") == "call" and mods[0]["rhs"].get("n") == A["parser"] and astq.estr(mods[0]["rhs"]["args"][0]) == "flags"
+    ctx.inst(okm, "R09.2", "modified-only-by-parser", main.loc(mods[-1]) if mods else main.loc(), "`flags` is modified only by svf_parse_flags(flags, <option>)",
+             "`flags` is written %d time(s) in the driver (%s): the set handed to the session is not exactly what --modify-flags asked for" % (len(mods), "; ".join(astq.estr(m_)[:50] for m_ in mods[:3])))
     dflt = [n for n in main.nodes() if n["k"] == "call" and n.get("n") == A["tostring"] and n["args"] and astq.estr(n["args"][0]) == A["standard"]]
     ctx.inst(bool(dflt), "R09.2", "default-flags-lists-standard", main.loc(dflt[0]) if dflt else main.loc(), "--default-flags prints svf_string(STANDARD_SCRIPT_VERIFY_FLAGS)")
     setup_calls = [n for n in main.nodes() if n["k"] == "mcall" and n.get("n") == "setup_environment"]
@@ -493,6 +501,7 @@ def classify_bool_use(ctx, prog, f, n, name):
 
 
 MUTANTS = [
+    dict(name="flags-made-consistent-after-parsing", file="btcdeb.cpp", find="        if (verbose) fprintf(stderr, \"resulting flags:", replace="        if (flags & (SCRIPT_VERIFY_WITNESS | SCRIPT_VERIFY_CLEANSTACK)) flags |= SCRIPT_VERIFY_P2SH;\n        if (verbose) fprintf(stderr, \"resulting flags:", expect=["R09.2:modified-only-by-parser"]),
     dict(name="row-bound-to-neighbour", file="btcdeb.cpp", find="    _(NULLFAIL),\n", replace="    script_verify_flag(\"NULLFAIL\", SCRIPT_VERIFY_NULLDUMMY),\n", expect=["R09.1:row=NULLFAIL"]),
     dict(name="row-missing", file="btcdeb.cpp", find="    _(MINIMALIF),\n", replace="", expect=["R09.1:missing=SCRIPT_VERIFY_MINIMALIF", "R09.1:standard-subset-of-table"]),
     dict(name="prefix-lookup", file="btcdeb.cpp", find="if (i.str == s) return i.id;", replace="if (!strncmp(s.c_str(), i.str.c_str(), i.str.size())) return i.id;", expect=["R09.1:exact-name-lookup"]),
